@@ -657,6 +657,32 @@ class Interp(StmtMixin):
 
     def index(self, st, base, idx, node):
         line = getattr(node, "lineno", None)
+        if base.ty in ("sexp", "slist") and isinstance(node.slice, ast.Constant) and node.slice.value == 0:
+            from .sorts import sfirst
+            if base.ty == "sexp":
+                # x[0] of an atom is its first character (Python): a one-character atom
+                s_atom = st.assume(SExp.is_Atom(base.t))
+                if self.feasible(s_atom):
+                    n0 = z3.Length(SExp.s(base.t))
+                    s_e = s_atom.assume(n0 == 0)
+                    if self.feasible(s_e):
+                        yield s_e, Raise("IndexError", line)
+                    s_c = s_atom.assume(n0 > 0)
+                    if self.feasible(s_c):
+                        yield s_c, Val(SExp.Atom(z3.SubString(SExp.s(base.t), 0, 1)), "sexp")
+                st = st.assume(SExp.is_Lst(base.t))
+                if not self.feasible(st):
+                    return
+                items = SExp.items(base.t)
+            else:
+                items = base.t
+            s_bad = st.assume(SList.is_Nil(items))
+            if self.feasible(s_bad):
+                yield s_bad, Raise("IndexError", line)
+            s_ok = st.assume(z3.Not(SList.is_Nil(items)))
+            if self.feasible(s_ok):
+                yield s_ok, Val(sfirst(items), "sexp")
+            return
         if base.ty == "tree_children":
             # anytree children tuple: Op has exactly two children, leaves none
             if not isinstance(node.slice, ast.Constant) or node.slice.value not in (0, 1):
@@ -761,6 +787,19 @@ class Interp(StmtMixin):
                 return -b.operand.value
             raise Unsupported("non-constant slice bound")
         lo, hi = bound(sl.lower), bound(sl.upper)
+        if base.ty in ("sexp", "slist") and lo == 1 and hi is None:
+            from .sorts import srest
+            if base.ty == "sexp":
+                s_atom = st.assume(SExp.is_Atom(base.t))
+                if self.feasible(s_atom):
+                    yield s_atom, Val(SExp.Atom(z3.SubString(SExp.s(base.t), 1, z3.Length(SExp.s(base.t)))), "sexp")
+                st = st.assume(SExp.is_Lst(base.t))
+                if not self.feasible(st):
+                    return
+                yield st, Val(srest(SExp.items(base.t)), "slist")
+            else:
+                yield st, Val(srest(base.t), "slist")
+            return
         if base.ty == "pylist":
             yield st, Val(None, "pylist", base.py[lo:hi])
             return
